@@ -341,7 +341,11 @@ class History:
                 fn = lambda: c.script.csscombine(cssText='@import "/nonexistent/q.css";a{top:0}', href='file:///nonexistent/s.css', targetencoding='ascii')  # noqa: E731
             out = self.sentinel_call(kind, fn)
         elif kind == 'csscombine-ok':
-            out = self.sentinel_call(kind, lambda: c.script.csscombine(cssText='a { top : 0 } /*c*/ b{color:#ff0000}', href='http://h/s.css', minify=r.random() < 0.7))
+            # every argument that is handed on to the serializer, in both settings
+            mini, resolve = r.random() < 0.6, r.random() < 0.5
+            text = r.choice(['a { top : 0 } /*c*/ b{color:#ff0000}', '@variables{c:#0f0}a { color: var(c) }', '@charset "ascii";a{content:"é"}'])
+            out = self.sentinel_call(kind, lambda: c.script.csscombine(cssText=text, href='http://h/s.css', minify=mini, resolveVariables=resolve,
+                                                                       targetencoding=r.choice(['utf-8', 'ascii', 'utf-16'])))
         elif kind == 'resolve-fault':
             ctx.count('faults.injected')
             p = c.CSSParser(fetcher=make_fetcher(r.choice(FETCH_KINDS), r.randint(2, 4)))
